@@ -300,7 +300,8 @@ def main(argv=None):
     ck.judge("JudgePair", recs, cfg="Judge.cfg",
              weight=lambda r: 1 + len(r["a"].get("clauses", r["a"].get("constraints", []))))
     ck.assumptions += ["random choices: the same seed is installed before the command line builds and before the library "
-                       "call; --plant is mirrored as one random total assignment drawn before the call",
+                       "call (seeded randkcnf / randkxor without --plant are the pinned documented equality); --plant and the hidden graphs "
+                       "of the compression shortcuts are judged existentially (C13 resp. JudgeCompress.tla), not by re-enacting draws",
                        "graph arguments are exchanged through the kthlist file written by 'save'",
                        "clauses are compared as multisets of literal sets (order of clauses and of literals is not demanded)"]
     return ck.finish(rule="one pair = one command line of the TLC-exported LibCall table (or a chain / option / tool variant) "
